@@ -136,7 +136,7 @@ def run(chk):
         vlib.correspond(chk, cases, model, impl, oracle=oracle, what="timer", nontrivial=nontrivial)
     # agent level: every connectivity check on a black-holed pair is transmitted exactly stun-max-retransmissions times, on schedule
     n = 300 if chk.tier == "quick" else 15000
-    sc.run_sim(chk, [sc.gen_blackhole(chk.rng, i) for i in range(n)], lambda line, evs, meta: sc.oracle_blackhole(evs, meta), "sim-C19")
+    sc.run_sim(chk, [sc.gen_blackhole(chk.rng, i) for i in range(n)], lambda line, evs, meta: sc.oracle_blackhole(evs, meta), "sim-C19", token=" blackhole stun c0 ")
     return chk.finish(**FINISH)
 
 
